@@ -112,6 +112,8 @@ for a, b, c in (('add-child', 'upd-parent', 'rm-sibling'), ('rm-sibling', 'add-c
 
 
 def _event_fn(name):
+    if name.startswith('abort[') and name not in A.EVENT_BY_NAME:
+        A.EVENT_BY_NAME[name] = A.aborted(name[6:-1])
     return TX_EVENTS.get(name) or A.EVENT_BY_NAME[name]
 
 
@@ -277,6 +279,11 @@ def run(ctx):
                  ('N1', 'write-stashed-state(N1,8)')):
         jobs += [[f'stash({h})', e, w] for e in names + txs[:20]]
         jobs += [[f'stash({h})', w, w], [f'stash({h})', w, 'update-descr(CH)', w]]
+    # aborted transactions (pre-commit handler raises) between a delete and a re-create, and in general
+    creators = [n for n in names if n.startswith(('create', 'patient-new', 'patient-entity-new', 'parent+child', 'delete'))]
+    for pre in (PRE_STATES[3:4] if ctx.quick else PRE_STATES):
+        jobs += [pre + [f'abort[{a}]', e] for a in creators for e in creators]
+    jobs += [[f'abort[{a}]', a] for a in names]
     if not ctx.quick:
         jobs += hist.sequences(core, 3)
         jobs += [[t1, t2] for t1 in txs for t2 in txs]
